@@ -143,7 +143,39 @@ def attach(e, rng):
             root = {'op': 'view', 'r': root, 'cls': 'Vclean', 'prefix': None, 'via': 'dispatcher'}
         else:
             root = {'op': 'merge', 'r': root, 'other': gen_ops(rng, 1, False), 'via': 'dispatcher'}
+    if rng.random() < 0.35:
+        # ONE add_methods(...) call with mixed arguments (functions, Method objects, registries): handled in call order
+        items = []
+        for _ in range(rng.randrange(2, 4)):
+            k = rng.randrange(3)
+            if k == 0:
+                items.append({'fn': rng.choice(['f1', 'f2'])})
+            elif k == 1:
+                items.append({'fn': rng.choice(['f1', 'f2']), 'mname': rng.choice(['a.f1', 'f1', 'b.f1', 'x'])})
+            else:
+                items.append({'reg': {'op': 'add', 'r': new(rng.choice(['a', 'b', None])), 'fn': rng.choice(['f1', 'f2']), 'name': rng.choice([None, 'f1', 'x'])}})
+        root = {'op': 'mixed', 'r': root, 'items': items, 'via': 'dispatcher'}
     return root
+
+
+def desugar(e):
+    """`mixed` = its arguments registered one after the other (what the property's "later registration replaces" means)"""
+    if not isinstance(e, dict) or 'op' not in e:
+        return e
+    e = dict(e)
+    if 'r' in e:
+        e['r'] = desugar(e['r'])
+    if 'other' in e:
+        e['other'] = desugar(e['other'])
+    if e['op'] == 'mixed':
+        r = e['r']
+        for it in e['items']:
+            if 'reg' in it:
+                r = {'op': 'merge', 'r': r, 'other': desugar(it['reg']), 'via': 'dispatcher'}
+            else:
+                r = {'op': 'add_methods', 'r': r, 'items': [it], 'via': 'dispatcher'}
+        return r
+    return e
 
 
 def edits(name):
@@ -153,12 +185,16 @@ def edits(name):
         out.add(name[:i] + '_' + name[i:])
         if i < len(name):
             out.add(name[:i] + name[i + 1:])
+    # surrounding whitespace is part of a name
+    out |= {' ' + name, name + ' ', '\t' + name, name + '\n'}
     return out
 
 
 def uses_alias(e):
     if not isinstance(e, dict):
         return False
+    if e.get('op') == 'mixed':
+        return uses_alias(desugar(e))
     if e.get('op') == 'view' and e.get('cls') == 'Valias':
         return True
     return uses_alias(e.get('r')) or uses_alias(e.get('other'))
@@ -168,6 +204,8 @@ def uses_method_obj_in_prefixed(e):
     """a Method object added (via add_methods) to a registry whose own prefix is truthy"""
     if not isinstance(e, dict) or 'op' not in e:
         return False
+    if e['op'] == 'mixed':
+        return uses_method_obj_in_prefixed(desugar(e))
     if e['op'] == 'add_methods' and any('mname' in it for it in e['items']) and _own_prefix(e):
         return True
     return uses_method_obj_in_prefixed(e.get('r')) or uses_method_obj_in_prefixed(e.get('other'))
@@ -200,7 +238,8 @@ def finish(c):
     names = spec_keys(c['expr'])
     probes = set(names)
     for n in list(names)[:6]:
-        probes |= set(list(edits(n))[:8])
+        ed = sorted(edits(n))
+        probes |= set(ed[:8]) | {e for e in ed if e != e.strip()}
     probes |= {'helper_pub', '_hp', 'own', 'v._hp', 'a.helper_pub', '_hidden', '_priv', 'Vclean._hidden', 'v._hidden', 'a._hidden', 'a.b._hidden', 'data', 'a.data', 'pub', 'v.pub',
                '__methods__', '__init__', 'f1', 'a.f1', 'a.a.f1', 'nosuch', ''}
     c['probes'] = sorted(probes)
@@ -212,13 +251,17 @@ def finish(c):
 # ------------------------------------------------------------------------------------------------
 
 def spec(e):
+    return _spec(desugar(e))
+
+
+def _spec(e):
     """-> (own prefix, ordered dict name -> target) computed from the property's words: the explicit name or
     the function's own name, preceded by the dot-joined non-empty prefixes of the registries / view it was
     added through (outermost first); a later registration under an existing name replaces the earlier one."""
     op = e['op']
     if op == 'new':
         return e['prefix'], {}
-    prefix, table = spec(e['r'])
+    prefix, table = _spec(e['r'])
     table = dict(table)
 
     def put(segments, target):
@@ -236,7 +279,7 @@ def spec(e):
             if not m['attr'].startswith('_') and m['target'] is not None:
                 put([prefix, e['prefix'], m['attr']], f'{e["cls"]}.{m["target"]}')   # exposed under the public attribute name
     elif op == 'merge':
-        _, other = spec(e['other'])
+        _, other = _spec(e['other'])
         for name, target in other.items():
             put([prefix, name], target)
     return prefix, table
@@ -274,6 +317,16 @@ def build(e, d):
             other = build(e['other'], None)
             SOURCES.append((e['other'], other))
             d.add_methods(other)
+        elif op == 'mixed':
+            args = []
+            for it in e['items']:
+                if 'reg' in it:
+                    other = build(it['reg'], None)
+                    SOURCES.append((it['reg'], other))
+                    args.append(other)
+                else:
+                    args.append(Method(FUNCS[it['fn']], it['mname']) if 'mname' in it else FUNCS[it['fn']])
+            d.add_methods(*args)
         return d.registry
     r = build(e['r'], d)
     if op == 'add':
@@ -332,6 +385,12 @@ def halves(out):
 
 def relevant(prop, c):
     return prop in ('C15', 'C11')
+
+
+def model_case(c, impl_out):
+    m = dict(c)
+    m['expr'] = desugar(c['expr'])
+    return m
 
 
 def _proj(o):
